@@ -30,6 +30,9 @@ func TestWorker(t *testing.T) {
 			if overlayHooks != nil {
 				overlayHooks()
 			}
+			if simsyncHooks != nil {
+				simsyncHooks()
+			}
 		},
 		Run: run,
 	})
@@ -660,3 +663,7 @@ func runSema(rc *kernel.RunCtx, k *kernel.Kernel, misuse bool) {
 // overlayHooks is set by autoyield_test.go when the check is built with the
 // statement-level yield overlay.
 var overlayHooks func()
+
+// simsyncHooks is set by simsync_test.go when the check is built with
+// simulated mutexes.
+var simsyncHooks func()
